@@ -33,6 +33,8 @@ type fixture struct {
 	deliveries []delivery
 	// intervals of finished operations
 	ops []opRec
+	// dispatches not judged because they fell on the edge of the de-duplication window
+	unjudged int
 }
 
 type delivery struct {
@@ -254,6 +256,7 @@ func (f *fixture) judge() []string {
 		// is it a sequential repeat of a dispatch that delivered to somebody and finished before?
 		repeat := false
 		concurrentSame := false
+		windowEdge := false
 		for dj, p := range ops {
 			if dj == di || p.kind != "disp" || p.arg != mi {
 				continue
@@ -261,8 +264,10 @@ func (f *fixture) judge() []string {
 			if p.end < o.start {
 				// a dispatch that returned without error marked the message handled,
 				// whether or not anybody was registered to receive it
-				if p.err == "" && o.wall.Sub(p.wall) < 1500*time.Millisecond {
+				if gap := o.wall.Sub(p.wall); p.err == "" && gap < 1500*time.Millisecond {
 					repeat = true
+				} else if p.err == "" && gap < 4500*time.Millisecond {
+					windowEdge = true // a stalled machine: the 3 s window may or may not have elapsed
 				}
 			} else if p.start < o.end {
 				concurrentSame = true
@@ -270,6 +275,10 @@ func (f *fixture) judge() []string {
 		}
 		if concurrentSame {
 			continue // two dispatches of the same message at once: attribution is ambiguous, not judged
+		}
+		if windowEdge && !repeat {
+			f.unjudged++
+			continue
 		}
 		for si := range f.sp.subs {
 			n := count[si]
@@ -312,6 +321,7 @@ func opStr(i int) string { return fmt.Sprintf("%s(%d)", opNames[i].kind, opNames
 // seqResult is what one enumerated sequence produced.
 type seqResult struct {
 	deliveries int
+	unjudged   int
 	sig        string
 	viol       []string
 }
@@ -322,12 +332,16 @@ func runOneSequence(v int, idx []int) seqResult {
 		f.op(opNames[o].kind, opNames[o].arg)
 	}
 	r := seqResult{deliveries: len(f.deliveries)}
-	var sb strings.Builder
+	// signature = multiset of deliveries (the handlers of one dispatch run side by
+	// side, their order is not an observable of the sequence)
+	var ds []string
 	for _, d := range f.deliveries {
-		fmt.Fprintf(&sb, "%d>%d;", d.msg, d.sub)
+		ds = append(ds, fmt.Sprintf("%d>%d", d.msg, d.sub))
 	}
-	r.sig = sb.String()
+	sort.Strings(ds)
+	r.sig = strings.Join(ds, ";")
 	r.viol = f.judge()
+	r.unjudged = f.unjudged
 	return r
 }
 
@@ -383,6 +397,7 @@ func runSequential(rep *core.Report, n, v0, v1 int, label string) (seqs int, del
 			}
 			seqs++
 			deliveries += res[c].deliveries
+			rep.Add("dispatch.window_edge_dispatches_not_judged", res[c].unjudged)
 			outcomes[fmt.Sprintf("v%d:", v)+res[c].sig] = true
 			for _, m := range res[c].viol {
 				idx := decodeSeq(c, n)
